@@ -25,107 +25,20 @@
 //! in systematic shape families (paths, zigzags, caterpillars, combs, balanced trees and mixes) with lazy
 //! modifications pending at chosen nodes; every operation of the property is applied to them once, on
 //! threads with a generous stack, and judged by the invariants of the exploration in linear time.
+//!
+//! C03 judges ownership as well (a vector owns its elements): before anything else, parts of their own run
+//! the exploration and a family of the shape sweep with plain-integer elements whose destructor counts into a
+//! per-history table (`Dr`, `DropSys`): 0 destructor runs for everything alive, exactly one for everything
+//! that has left, after every action.  And one short history of the Vec-owning item runs under Miri (side
+//! crate `miri/`), so that undefined behaviour in an unsafe corner is a verdict and not a crash.
 
+mod item;
+
+use item::*;
 use rlib_treap::{Treap, TreapItem, TreapItemSized, TreapNode};
 use serde::{Deserialize, Serialize};
 use std::sync::atomic::{AtomicU64, Ordering};
 use vcore::*;
-
-// ---------------------------------------------------------------------------------------------
-// item: value in Z3, subtree size, aggregate = word of the subtree's values, pending modification
-
-/// A lazy modification: the element at position i (0-based) of the subtree it is attached to becomes
-/// a*x + b + d*i (mod 3).  With d = 0 these are the affine maps (add, assign); with d != 0 the modification
-/// depends on the POSITION ("add an arithmetic progression"), so pushing it treats the two children
-/// differently: the left child continues at position 0, the right child at position left_size + 1.
-type Tag = (u8, u8, u8);
-
-/// `I` = type of the element ids: u8 in the exploration (at most 6 nodes), u32 in the directed shape sweep
-#[derive(Clone, Debug, PartialEq)]
-struct It<I = u8> {
-    id: I,
-    val: u8,
-    size: u32,
-    /// size of the left subtree = position of `val` inside this subtree
-    lsize: u32,
-    agg: Vec<u8>,
-    /// pending for the children (already applied to `val` and `agg`), positions counted from the first
-    /// element of THIS subtree; identity (1, 0, 0)
-    tag: Tag,
-}
-
-const IDT: Tag = (1, 0, 0);
-/// add 1, assign 0 (they do not commute), add the progression 1 + i (asymmetric push)
-const MODS: [Tag; 3] = [(1, 1, 0), (0, 0, 0), (1, 1, 1)];
-const MOD_NAMES: [&str; 3] = ["add 1", "assign 0", "add 1+i to the i-th element"];
-const AFFINE: &[u8] = &[0, 1];
-const PROGRESSION: &[u8] = &[2, 1];
-
-/// x at position i under m
-fn map_val(m: Tag, x: u8, i: usize) -> u8 {
-    ((m.0 * x + m.1) as usize + m.2 as usize * (i % 3)) as u8 % 3
-}
-
-/// position by position x -> outer(inner(x)); both count positions from the same element
-fn compose(outer: Tag, inner: Tag) -> Tag {
-    ((outer.0 * inner.0) % 3, (outer.0 * inner.1 + outer.1) % 3, (outer.0 * inner.2 + outer.2) % 3)
-}
-
-/// m as seen from the element at position k: positions counted from there
-fn shift(m: Tag, k: usize) -> Tag {
-    (m.0, map_val((1, m.1, m.2), 0, k), m.2)
-}
-
-impl<I> It<I> {
-    fn new(id: I, val: u8) -> It<I> {
-        It { id, val, size: 1, lsize: 0, agg: vec![val], tag: IDT }
-    }
-    /// `m` counts positions from the first element of this subtree
-    fn apply(&mut self, m: Tag) {
-        self.val = map_val(m, self.val, self.lsize as usize);
-        for (k, x) in self.agg.iter_mut().enumerate() {
-            *x = map_val(m, *x, k);
-        }
-        // a node without children has nobody to forward the modification to
-        if self.size >= 2 {
-            self.tag = compose(m, self.tag);
-        }
-    }
-}
-
-impl<I> TreapItem for It<I> {
-    fn update(&mut self, l: Option<&Self>, r: Option<&Self>) {
-        self.lsize = l.map_or(0, |x| x.size);
-        self.size = 1 + self.lsize + r.map_or(0, |x| x.size);
-        let mut agg = l.map_or(vec![], |x| x.agg.clone());
-        agg.push(self.val);
-        if let Some(r) = r {
-            agg.extend_from_slice(&r.agg);
-        }
-        agg.truncate(32);
-        self.agg = agg;
-    }
-    fn push(&mut self, l: Option<&mut Self>, r: Option<&mut Self>) {
-        if self.tag != IDT {
-            let t = self.tag;
-            // the right child's elements come after the left child's and this node's own
-            let before_right = l.as_ref().map_or(0, |x| x.size as usize) + 1;
-            if let Some(l) = l {
-                l.apply(t);
-            }
-            if let Some(r) = r {
-                r.apply(shift(t, before_right));
-            }
-            self.tag = IDT;
-        }
-    }
-}
-
-impl<I> TreapItemSized for It<I> {
-    fn size(&self) -> usize {
-        self.size as usize
-    }
-}
 
 // ---------------------------------------------------------------------------------------------
 
@@ -315,25 +228,70 @@ fn model_saw(q: u32) {
     })
 }
 
-impl Sys {
-    fn levels(s: &St) -> Vec<u32> {
-        let mut ps = vec![];
-        for t in &s.slots {
-            for_each_node(&t.root, &mut |n| ps.push(n.priority));
-        }
-        ps.sort();
-        ps.dedup();
-        ps
+/// the distinct priorities of the live nodes, ascending
+fn levels_of<T>(slots: &[Treap<T>]) -> Vec<u32> {
+    let mut ps = vec![];
+    for t in slots {
+        for_each_node(&t.root, &mut |n| ps.push(n.priority));
     }
+    ps.sort();
+    ps.dedup();
+    ps
+}
 
-    /// re-space priorities to 2*rank (2, 4, 6, …), order and ties preserved
-    fn normalise(s: &mut St) {
-        let lv = Self::levels(s);
-        for t in s.slots.iter_mut() {
+/// re-space priorities to 2*rank (2, 4, 6, …), order and ties preserved: the form a stored state keeps them in
+fn normalise_slots<T>(slots: &mut [Treap<T>]) {
+    let lv = levels_of(slots);
+    for t in slots.iter_mut() {
+        for_each_node_mut(&mut t.root, &mut |n| {
+            n.priority = 2 * (lv.binary_search(&n.priority).unwrap() as u32 + 1);
+        });
+    }
+}
+
+/// The lowest live level becomes 0 and the highest u32::MAX (order and ties preserved): "every assignment of
+/// priorities" includes the extreme values.
+fn stretch_extremes<T>(slots: &mut [Treap<T>]) {
+    let lv = levels_of(slots);
+    if let (Some(&lo), Some(&hi)) = (lv.first(), lv.last()) {
+        for t in slots.iter_mut() {
             for_each_node_mut(&mut t.root, &mut |n| {
-                n.priority = 2 * (lv.binary_search(&n.priority).unwrap() as u32 + 1);
+                if n.priority == hi {
+                    n.priority = u32::MAX;
+                } else if n.priority == lo {
+                    n.priority = 0;
+                }
             });
         }
+    }
+}
+
+/// Before an insert_at whose new node is to get rank `eff` among the stored levels 2, 4, …, 2*nlev: the
+/// levels below `eff` move to 0, 1, 2, …, those above it to …, u32::MAX-1, u32::MAX, a level equal to `eff`
+/// (a tie, even `eff`) onto `tied`.  Returns how many levels are strictly below and strictly above: a draw q
+/// with below <= q <= u32::MAX - above has landed where it had to.
+fn respace_around<T>(slots: &mut [Treap<T>], eff: u32, nlev: u32, tied: Option<u32>) -> (u32, u32) {
+    for t in slots.iter_mut() {
+        for_each_node_mut(&mut t.root, &mut |n| {
+            n.priority = if n.priority < eff {
+                n.priority / 2 - 1
+            } else if n.priority > eff {
+                u32::MAX - (nlev - n.priority / 2)
+            } else {
+                tied.unwrap()
+            };
+        });
+    }
+    ((eff - 1) / 2, nlev - eff / 2)
+}
+
+impl Sys {
+    fn levels(s: &St) -> Vec<u32> {
+        levels_of(&s.slots)
+    }
+
+    fn normalise(s: &mut St) {
+        normalise_slots(&mut s.slots)
     }
 
     fn total(s: &St) -> usize {
@@ -512,18 +470,7 @@ impl System for Sys {
         // node the live priorities are first stretched so that the lowest level is 0 and the highest is
         // u32::MAX (order and ties preserved): "every assignment of priorities" includes the extreme values.
         if !matches!(a, Act::New(..) | Act::InsertAt(..) | Act::Start) {
-            let lv = Self::levels(s);
-            if let (Some(&lo), Some(&hi)) = (lv.first(), lv.last()) {
-                for t in s.slots.iter_mut() {
-                    for_each_node_mut(&mut t.root, &mut |n| {
-                        if n.priority == hi {
-                            n.priority = u32::MAX;
-                        } else if n.priority == lo {
-                            n.priority = 0;
-                        }
-                    });
-                }
-            }
+            stretch_extremes(&mut s.slots);
         }
         match *a {
             Act::Start => return Err("constructor inside a history".into()),
@@ -592,20 +539,8 @@ impl System for Sys {
                 let mut attempts = 0;
                 loop {
                     attempts += 1;
-                    // stored levels are 2, 4, …, 2*nlev
-                    for t in s.slots.iter_mut() {
-                        for_each_node_mut(&mut t.root, &mut |n| {
-                            n.priority = if n.priority < eff {
-                                n.priority / 2 - 1
-                            } else if n.priority > eff {
-                                u32::MAX - (nlev - n.priority / 2)
-                            } else {
-                                target.unwrap()
-                            };
-                        });
-                    }
-                    let below = (eff - 1) / 2; // levels strictly below the chosen rank: values 0..below
-                    let above = nlev - eff / 2; // levels strictly above: values > u32::MAX - above
+                    // levels strictly below the chosen rank: values 0..below; strictly above: > u32::MAX - above
+                    let (below, above) = respace_around(&mut s.slots, eff, nlev, target);
                     s.slots[i].insert_at(pos, make_item(id, val));
                     let mut drawn = None;
                     for_each_node(&s.slots[i].root, &mut |n| {
@@ -773,6 +708,495 @@ impl System for Sys {
             Act::Size(..) => "size",
             Act::Root(..) => "root",
             Act::MergeEmpty(..) => "merge_with_empty",
+        }
+    }
+}
+
+// ---------------------------------------------------------------------------------------------
+// C03 (c): DROP ACCOUNTING — every element leaves the sequence exactly once.
+//
+// The property compares the treap with a vector, and a vector owns its elements: `remove` hands one over
+// alive, everything else is destroyed exactly once when the vector goes.  The parts above cannot see how
+// often an element is destroyed (and their item owns a Vec: destroying it twice is undefined behaviour that
+// takes the process down before a verdict).  This part runs the same kind of histories with an element made
+// of plain integers whose destructor writes its id into a table that belongs to the history: running it
+// twice is observable and harmless.  After every action every element that is in a live treap or in the
+// caller's hands must have been destroyed 0 times, every element that has left (its treap was dropped, the
+// item remove_at returned was dropped) exactly once; a returned item must read back as the element it is.
+
+/// what `Dr::check` holds while the element is alive (a function of the id), and after its destructor ran
+fn dr_check(id: u32) -> u32 {
+    id.wrapping_mul(0x9E37_79B9) ^ 0x5EED_0D0F
+}
+const DR_DEAD: u32 = 0xDEAD_DEAD;
+
+/// An element without heap-owning fields: destroying it twice is wrong, but not undefined behaviour.
+struct Dr {
+    id: u32,
+    check: u32,
+    size: u32,
+}
+
+impl Dr {
+    fn new(id: u32) -> Dr {
+        Dr { id, check: dr_check(id), size: 1 }
+    }
+    fn intact(&self) -> bool {
+        self.check == dr_check(self.id)
+    }
+}
+
+/// a copy made by the harness is a second live object with the same id; copies are only ever destroyed
+/// while no table, or the table of a copied state, is installed
+impl Clone for Dr {
+    fn clone(&self) -> Dr {
+        Dr { id: self.id, check: self.check, size: self.size }
+    }
+}
+
+impl Drop for Dr {
+    fn drop(&mut self) {
+        let _ = DROPS.try_with(|t| {
+            if let Some(t) = t.borrow_mut().as_mut() {
+                t.record(self.id, self.check);
+            }
+        });
+        // whatever still reads this object afterwards does not see a live element
+        self.check = DR_DEAD;
+    }
+}
+
+impl TreapItem for Dr {
+    fn update(&mut self, l: Option<&Self>, r: Option<&Self>) {
+        self.size = 1 + l.map_or(0, |x| x.size) + r.map_or(0, |x| x.size);
+    }
+}
+
+impl TreapItemSized for Dr {
+    fn size(&self) -> usize {
+        self.size as usize
+    }
+}
+
+/// How often the destructor of element #id has run, and the first destructor call on something that is not
+/// a live element (an id the harness never handed out, or an object already destroyed).
+#[derive(Clone, Default, Debug, PartialEq)]
+struct DropTable {
+    counts: Vec<u8>,
+    stray: Option<(u32, u32)>,
+}
+
+impl DropTable {
+    fn record(&mut self, id: u32, check: u32) {
+        match self.counts.get_mut(id as usize) {
+            Some(c) if check == dr_check(id) => *c = c.saturating_add(1),
+            _ => self.stray = self.stray.or(Some((id, check))),
+        }
+    }
+
+    /// `live(id)` = where element #id is, if the caller or a live treap still owns it
+    fn check(&self, live: &dyn Fn(u32) -> Option<&'static str>) -> Result<(), String> {
+        if let Some((id, check)) = self.stray {
+            return Err(format!("a destructor ran on an object that is not a live element: id field {id}, check field {check:#x} (an element already destroyed reads {DR_DEAD:#x})"));
+        }
+        for (id, &c) in self.counts.iter().enumerate() {
+            match (live(id as u32), c) {
+                (Some(_), 0) | (None, 1) => {}
+                (Some(place), c) => return Err(format!("element #{id} is {place}, but its destructor has already run {c} time(s)")),
+                (None, 0) => return Err(format!("element #{id} has left (its treap or the item remove_at returned was dropped), but its destructor has not run: leaked")),
+                (None, c) => return Err(format!("element #{id} has left (its treap or the item remove_at returned was dropped) and its destructor has run {c} times")),
+            }
+        }
+        Ok(())
+    }
+}
+
+thread_local! {
+    /// the table of the history this thread is executing a step of; none: destructors are not recorded
+    static DROPS: std::cell::RefCell<Option<DropTable>> = const { std::cell::RefCell::new(None) };
+}
+
+/// Runs `f` with `table` recording this thread's element destructors; `table` gets the result back, also
+/// when `f` panics.
+fn with_table<R>(table: &mut DropTable, f: impl FnOnce() -> R) -> R {
+    struct Back<'a>(&'a mut DropTable);
+    impl Drop for Back<'_> {
+        fn drop(&mut self) {
+            *self.0 = DROPS.with(|d| d.borrow_mut().take()).unwrap_or_default();
+        }
+    }
+    DROPS.with(|d| *d.borrow_mut() = Some(std::mem::take(table)));
+    let _back = Back(table);
+    f()
+}
+
+/// Runs `f` with no table installed: what the harness destroys for its own purposes is not part of the history.
+fn unrecorded<R>(f: impl FnOnce() -> R) -> R {
+    let table = DROPS.with(|d| d.borrow_mut().take());
+    let r = f();
+    DROPS.with(|d| *d.borrow_mut() = table);
+    r
+}
+
+/// the installed table as it stands
+fn table_now() -> DropTable {
+    DROPS.with(|d| d.borrow().clone()).unwrap_or_default()
+}
+
+#[derive(Clone, Debug, Serialize, Deserialize)]
+enum DAct {
+    Start,
+    /// single-node treap at priority choice pc (as `Act::New`)
+    New(u8),
+    Merge(u8, u8),
+    SplitAt(u8, u8),
+    SplitBy(u8, u8),
+    /// (treap, position, pc) with pc odd: strictly between live levels (tied ranks are reached by New + Merge)
+    InsertAt(u8, u8, u8),
+    /// the returned item stays in the caller's hands
+    RemoveAt(u8, u8),
+    /// `t.remove_at(pos);` — the returned item is dropped on the spot
+    RemoveAtDiscard(u8, u8),
+    /// the caller drops the k-th item it holds
+    DropHeld(u8),
+    /// the caller drops a whole treap
+    DropTreap(u8),
+    First(u8),
+    Last(u8),
+    Collect(u8),
+    MergeEmpty(u8, bool),
+}
+
+struct DSt {
+    slots: Vec<Treap<Dr>>,
+    /// element ids, in sequence order
+    models: Vec<Vec<u32>>,
+    /// items remove_at returned and the caller has not dropped yet
+    held: Vec<Dr>,
+    /// one entry per element created in this history
+    table: DropTable,
+}
+
+impl Clone for DSt {
+    fn clone(&self) -> Self {
+        DSt { slots: self.slots.iter().map(copy_treap).collect(), models: self.models.clone(), held: self.held.clone(), table: self.table.clone() }
+    }
+}
+
+impl DSt {
+    fn place(&self, id: u32) -> Option<&'static str> {
+        if self.models.iter().any(|m| m.contains(&id)) {
+            Some("still in a live treap")
+        } else if self.held.iter().any(|h| h.id == id) {
+            Some("in the caller's hands (remove_at returned it and the caller has not dropped it)")
+        } else {
+            None
+        }
+    }
+
+    fn live(&self) -> usize {
+        self.models.iter().map(|m| m.len()).sum::<usize>() + self.held.len()
+    }
+}
+
+const MAX_HELD: usize = 2;
+
+struct DropSys {
+    max_nodes: usize,
+    max_slots: usize,
+}
+
+static DROP_INSERT_DRAWS: AtomicU64 = AtomicU64::new(0);
+static DROP_DESTRUCTORS_SEEN: AtomicU64 = AtomicU64::new(0);
+
+impl DropSys {
+    fn step_inner(&self, s: &mut DSt, a: &DAct) -> Result<u64, String> {
+        let out;
+        if !matches!(a, DAct::New(..) | DAct::InsertAt(..) | DAct::Start) {
+            stretch_extremes(&mut s.slots);
+        }
+        // (the state's table is the installed one while a step runs)
+        let fresh = DROPS.with(|d| d.borrow().as_ref().map_or(0, |t| t.counts.len())) as u32;
+        match *a {
+            DAct::Start => return Err("constructor inside a history".into()),
+            DAct::New(pc) => {
+                DROPS.with(|d| d.borrow_mut().as_mut().unwrap().counts.push(0));
+                s.slots.push(Treap { root: Some(Box::new(TreapNode { item: Dr::new(fresh), priority: pc as u32, left: None, right: None })) });
+                s.models.push(vec![fresh]);
+                out = 0;
+            }
+            DAct::Merge(i, j) => {
+                let (i, j) = (i as usize, j as usize);
+                let l = std::mem::replace(&mut s.slots[i], Treap::new());
+                let r = std::mem::replace(&mut s.slots[j], Treap::new());
+                s.slots[i] = Treap::merge(l, r);
+                let mj = std::mem::take(&mut s.models[j]);
+                s.models[i].extend(mj);
+                out = 0;
+            }
+            DAct::SplitAt(i, pos) | DAct::SplitBy(i, pos) => {
+                let (i, pos) = (i as usize, pos as usize);
+                let t = std::mem::replace(&mut s.slots[i], Treap::new());
+                let (l, r) = if matches!(a, DAct::SplitAt(..)) {
+                    t.split_at(pos)
+                } else {
+                    let first: Vec<u32> = s.models[i][..pos].to_vec();
+                    t.split_by(|it| first.contains(&it.id))
+                };
+                let len = s.models[i].len();
+                if l.size() != pos || r.size() != len - pos {
+                    return Err(format!("{a:?}: parts have sizes {} and {}, expected {pos} and {}", l.size(), r.size(), len - pos));
+                }
+                let mr = s.models[i].split_off(pos);
+                s.slots[i] = l;
+                s.slots.push(r);
+                s.models.push(mr);
+                out = 0;
+            }
+            DAct::InsertAt(i, pos, pc) => {
+                let (i, pos) = (i as usize, pos as usize);
+                DROPS.with(|d| d.borrow_mut().as_mut().unwrap().counts.push(0));
+                let nlev = levels_of(&s.slots).len() as u32;
+                let before = (s.slots.iter().map(copy_treap).collect::<Vec<_>>(), table_now());
+                for attempt in 0.. {
+                    let (below, above) = respace_around(&mut s.slots, pc as u32, nlev, None);
+                    s.slots[i].insert_at(pos, Dr::new(fresh));
+                    DROP_INSERT_DRAWS.fetch_add(1, Ordering::Relaxed);
+                    let mut drawn = None;
+                    for_each_node(&s.slots[i].root, &mut |n| {
+                        if n.item.id == fresh {
+                            drawn = Some(n.priority);
+                        }
+                    });
+                    // (a missing element is for the sequence check to report)
+                    if drawn.map_or(true, |q| q >= below && q <= u32::MAX - above) || attempt >= 16 {
+                        break;
+                    }
+                    // the draw fell into one of the two tiny end zones: back to the state before the call
+                    // (the treaps of the failed attempt go unrecorded)
+                    unrecorded(|| s.slots = before.0.iter().map(copy_treap).collect());
+                    DROPS.with(|d| *d.borrow_mut() = Some(before.1.clone()));
+                }
+                // the harness's own copies are not part of the history
+                unrecorded(|| drop(before));
+                s.models[i].insert(pos, fresh);
+                out = 0;
+            }
+            DAct::RemoveAt(i, pos) | DAct::RemoveAtDiscard(i, pos) => {
+                let (i, pos) = (i as usize, pos as usize);
+                let it = s.slots[i].remove_at(pos);
+                let e = s.models[i].remove(pos);
+                // the returned item must be usable: its fields read back
+                if it.id != e || !it.intact() || it.size != 1 {
+                    return Err(format!("remove_at({pos}) returned an item that reads id {}, check {:#x}, size {}; the vector holds element #{e} (check {:#x}, size 1)", it.id, it.check, it.size, dr_check(e)));
+                }
+                out = it.id as u64;
+                if matches!(a, DAct::RemoveAt(..)) {
+                    s.held.push(it);
+                }
+            }
+            DAct::DropHeld(k) => {
+                drop(s.held.remove(k as usize));
+                out = 0;
+            }
+            DAct::DropTreap(i) => {
+                drop(std::mem::replace(&mut s.slots[i as usize], Treap::new()));
+                s.models[i as usize].clear();
+                out = 0;
+            }
+            DAct::First(i) | DAct::Last(i) => {
+                let i = i as usize;
+                let first = matches!(a, DAct::First(_));
+                let got = if first { s.slots[i].first() } else { s.slots[i].last() }.map(|x| x.id);
+                let exp = if first { s.models[i].first() } else { s.models[i].last() }.copied();
+                if got != exp {
+                    return Err(format!("{a:?} returned element {got:?}, the vector gives {exp:?}"));
+                }
+                out = fp(&got);
+            }
+            DAct::Collect(i) => {
+                let i = i as usize;
+                let got: Vec<u32> = s.slots[i].collect().iter().map(|x| x.id).collect();
+                if got != s.models[i] {
+                    return Err(format!("collect() returned elements {got:?}, the vector is {:?}", s.models[i]));
+                }
+                out = fp(&got);
+            }
+            DAct::MergeEmpty(i, left) => {
+                let i = i as usize;
+                let t = std::mem::replace(&mut s.slots[i], Treap::new());
+                s.slots[i] = if left { Treap::merge(Treap::new(), t) } else { Treap::merge(t, Treap::new()) };
+                out = 0;
+            }
+        }
+        let mut i = 0;
+        while i < s.slots.len() {
+            if s.models[i].is_empty() {
+                // (an empty treap owns nothing)
+                s.slots.remove(i);
+                s.models.remove(i);
+            } else {
+                i += 1;
+            }
+        }
+        normalise_slots(&mut s.slots);
+        Ok(out)
+    }
+
+    /// sequence, sizes and fields of everything alive
+    fn check_alive(s: &DSt) -> Result<(), String> {
+        for (i, (t, model)) in s.slots.iter().zip(&s.models).enumerate() {
+            let mut c = copy_treap(t);
+            let got: Vec<u32> = c.collect().iter().map(|x| x.id).collect();
+            if &got != model || t.size() != model.len() {
+                return Err(format!("treap #{i}: collect() would return elements {got:?} and size() is {}, the vector model holds {model:?}", t.size()));
+            }
+            let mut err = None;
+            fn rec(n: &Option<Box<TreapNode<Dr>>>, err: &mut Option<String>) -> u32 {
+                n.as_ref().map_or(0, |b| {
+                    let cnt = 1 + rec(&b.left, err) + rec(&b.right, err);
+                    if (b.item.size != cnt || !b.item.intact()) && err.is_none() {
+                        *err = Some(format!("node of element #{} caches size {} and reads check {:#x}; its subtree has {cnt} nodes, a live element #{} reads {:#x}", b.item.id, b.item.size, b.item.check, b.item.id, dr_check(b.item.id)));
+                    }
+                    cnt
+                })
+            }
+            rec(&t.root, &mut err);
+            if let Some(m) = err {
+                return Err(format!("treap #{i}: {m}"));
+            }
+        }
+        match s.held.iter().find(|h| !h.intact() || h.size != 1) {
+            Some(h) => Err(format!("an item remove_at returned earlier now reads id {}, check {:#x}, size {}", h.id, h.check, h.size)),
+            None => Ok(()),
+        }
+    }
+}
+
+impl System for DropSys {
+    type State = DSt;
+    type Action = DAct;
+
+    fn inits(&self) -> Vec<DAct> {
+        vec![DAct::Start]
+    }
+
+    fn init(&self, _a: &DAct) -> Result<DSt, String> {
+        Ok(DSt { slots: vec![], models: vec![], held: vec![], table: DropTable::default() })
+    }
+
+    fn actions(&self, s: &DSt) -> Vec<DAct> {
+        let mut v = vec![];
+        let k = s.slots.len() as u8;
+        let room = s.live() < self.max_nodes;
+        let nlev = levels_of(&s.slots).len() as u8;
+        if room && s.slots.len() < self.max_slots {
+            v.extend((1..=2 * nlev + 1).map(DAct::New));
+        }
+        for i in 0..k {
+            v.extend((0..k).filter(|&j| j != i).map(|j| DAct::Merge(i, j)));
+        }
+        for i in 0..k {
+            let len = s.models[i as usize].len() as u8;
+            for pos in 0..=len {
+                let needs_slot = pos != 0 && pos != len;
+                if !needs_slot || s.slots.len() < self.max_slots {
+                    v.push(DAct::SplitAt(i, pos));
+                    v.push(DAct::SplitBy(i, pos));
+                }
+            }
+            if room {
+                for pos in 0..=len {
+                    v.extend((0..=nlev).map(|r| DAct::InsertAt(i, pos, 2 * r + 1)));
+                }
+            }
+            for pos in 0..len {
+                if s.held.len() < MAX_HELD {
+                    v.push(DAct::RemoveAt(i, pos));
+                }
+                v.push(DAct::RemoveAtDiscard(i, pos));
+            }
+            v.extend([DAct::DropTreap(i), DAct::First(i), DAct::Last(i), DAct::Collect(i), DAct::MergeEmpty(i, false), DAct::MergeEmpty(i, true)]);
+        }
+        v.extend((0..s.held.len() as u8).map(DAct::DropHeld));
+        v
+    }
+
+    fn step(&self, s: &mut DSt, a: &DAct) -> Result<u64, String> {
+        let mut table = std::mem::take(&mut s.table);
+        let before: u64 = table.counts.iter().map(|&c| c as u64).sum();
+        let r = with_table(&mut table, || self.step_inner(s, a));
+        DROP_DESTRUCTORS_SEEN.fetch_add(table.counts.iter().map(|&c| c as u64).sum::<u64>() - before, Ordering::Relaxed);
+        s.table = table;
+        let out = r?;
+        s.table.check(&|id| s.place(id)).map_err(|m| format!("after {a:?}: {m}"))?;
+        Ok(out)
+    }
+
+    /// Everything alive is in order; and the history may end here: the caller drops every treap and every
+    /// item it holds (on a copy of the state, with a copy of the table), after which every element the
+    /// history created must have been destroyed exactly once.
+    fn invariant(&self, s: &DSt) -> Result<(), String> {
+        Self::check_alive(s)?;
+        let DSt { slots, held, mut table, .. } = s.clone();
+        with_table(&mut table, move || {
+            drop(slots);
+            drop(held);
+        });
+        table.check(&|_| None).map_err(|m| format!("at the end of the history, every treap and every returned item dropped: {m}"))
+    }
+
+    /// Pre-order (priority rank, cached size) per treap, treaps sorted, and the number of items held.  The
+    /// element ids and the table are left out: in a state that passed the checks the ids are the model's (the
+    /// sequence check), every field of an element is a function of its id, and the table is a function of who
+    /// is alive (0) and who is gone (1) — so two states with the same key differ by a renaming of the elements
+    /// and by how many elements are gone, neither of which any later action can observe.  Every state keeps
+    /// the history it was first reached by, and a replay re-executes that history with a table of its own.
+    fn canon(&self, s: &DSt) -> Vec<u8> {
+        fn enc(n: &Option<Box<TreapNode<Dr>>>, out: &mut Vec<u8>) {
+            match n {
+                None => out.push(0xfe),
+                Some(b) => {
+                    out.extend([b.priority as u8, b.item.size as u8]);
+                    enc(&b.left, out);
+                    enc(&b.right, out);
+                }
+            }
+        }
+        let mut parts: Vec<Vec<u8>> = s
+            .slots
+            .iter()
+            .map(|t| {
+                let mut o = vec![];
+                enc(&t.root, &mut o);
+                o
+            })
+            .collect();
+        parts.sort();
+        let mut k = vec![s.held.len() as u8];
+        for p in parts {
+            k.extend(p);
+            k.push(0xff);
+        }
+        k
+    }
+
+    fn kind(&self, a: &DAct) -> &'static str {
+        match a {
+            DAct::Start => "start",
+            DAct::New(..) => "new",
+            DAct::Merge(..) => "merge",
+            DAct::SplitAt(..) => "split_at",
+            DAct::SplitBy(..) => "split_by",
+            DAct::InsertAt(..) => "insert_at",
+            DAct::RemoveAt(..) => "remove_at_item_kept",
+            DAct::RemoveAtDiscard(..) => "remove_at_item_discarded",
+            DAct::DropHeld(..) => "drop_returned_item",
+            DAct::DropTreap(..) => "drop_treap",
+            DAct::First(..) => "first",
+            DAct::Last(..) => "last",
+            DAct::Collect(..) => "collect",
+            DAct::MergeEmpty(..) => "merge_with_empty",
         }
     }
 }
@@ -1126,7 +1550,7 @@ struct ShapeCase {
     other: Option<(Shape, usize, Tags, Rel)>,
 }
 
-const SHAPE_FAMILIES: [&str; 8] = ["observe", "split_at", "split_by", "insert_at", "remove_at", "apply", "range_apply", "merge"];
+const SHAPE_FAMILIES: [&str; 9] = ["observe", "split_at", "split_by", "insert_at", "remove_at", "apply", "range_apply", "merge", "drops"];
 
 /// what a sweep over shape cases saw, for the evidence
 #[derive(Default)]
@@ -1135,7 +1559,19 @@ struct ShapeStats {
     judged_trees: u64,
     max_height: usize,
     deepest_tag: usize,
-    per_family: [u64; 8],
+    per_family: [u64; 9],
+}
+
+impl ShapeStats {
+    fn absorb(&mut self, o: ShapeStats) {
+        self.cases += o.cases;
+        self.judged_trees += o.judged_trees;
+        self.max_height = self.max_height.max(o.max_height);
+        self.deepest_tag = self.deepest_tag.max(o.deepest_tag);
+        for (a, b) in self.per_family.iter_mut().zip(o.per_family) {
+            *a += b;
+        }
+    }
 }
 
 impl ShapeCase {
@@ -1154,6 +1590,7 @@ impl ShapeCase {
             ("insert_at", _) => format!("insert_at({a}), then remove_at({a})"),
             ("apply", _) => format!("modification #{b} attached at the root, then split_at({a}) and merge"),
             ("range_apply", _) => format!("positions {a}..{b} split out, modified at their root, merged back"),
+            ("drops", _) => format!("drop accounting (elements of plain integers whose destructor counts): remove_at({a}) with the item kept, insert_at({a}), split_at({b}), the left part dropped, the kept item dropped, first/last/collect, the right part dropped"),
             (f, _) => format!("{f}({a})"),
         };
         format!("({}, priorities by depth: {}) {op}", tree(self.shape, self.n, self.tags), self.prio.label())
@@ -1187,8 +1624,82 @@ impl ShapeCase {
         catch(|| self.run_inner(stats)).unwrap_or_else(|p| Err(format!("panicked: {p}")))
     }
 
+    /// The tree of `n` plain-integer elements (ids = positions) of this case's shape, priorities by depth.
+    fn build_dr(&self) -> Treap<Dr> {
+        fn rec(s: Shape, lo: usize, hi: usize, depth: usize, prio: &dyn Fn(u32) -> u32) -> Option<Box<TreapNode<Dr>>> {
+            if lo == hi {
+                return None;
+            }
+            let (r, ls, rs) = s.root(lo, hi, depth);
+            let item = Dr { size: (hi - lo) as u32, ..Dr::new(r as u32) };
+            Some(Box::new(TreapNode { item, priority: prio(depth as u32), left: rec(ls, lo, r, depth + 1, prio), right: rec(rs, r + 1, hi, depth + 1, prio) }))
+        }
+        let deepest = self.shape.height(self.n).saturating_sub(1) as u32;
+        Treap { root: rec(self.shape, 0, self.n, 0, &|d| self.prio.of(d, deepest)) }
+    }
+
+    /// Drop accounting on a literal tree: after every step every element still in a treap or in the
+    /// caller's hands has been destroyed 0 times, every element that has left exactly once.
+    fn run_drops(&self, stats: &mut ShapeStats) -> Result<(), String> {
+        let ShapeCase { n, a, b, .. } = *self;
+        let mut table = DropTable { counts: vec![0; n], stray: None };
+        let mut t = self.build_dr();
+        stats.max_height = stats.max_height.max(self.shape.height(n));
+        with_table(&mut table, move || {
+            let mut model: Vec<u32> = (0..n as u32).collect();
+            let mut kept: Option<u32> = None;
+            let mut judge = |what: &str, ts: &mut [&mut Treap<Dr>], model: &[u32], kept: Option<u32>| -> Result<(), String> {
+                stats.judged_trees += 1;
+                let got: Vec<u32> = ts.iter_mut().flat_map(|t| t.collect().into_iter().map(|x| x.id)).collect();
+                if got != model {
+                    return Err(format!("{what}: collect() returns {} elements, the vector has {}; first difference at position {:?}", got.len(), model.len(), got.iter().zip(model).position(|(x, y)| x != y)));
+                }
+                table_now().check(&|id| if model.contains(&id) { Some("still in a live treap") } else if kept == Some(id) { Some("in the caller's hands (remove_at returned it and the caller has not dropped it)") } else { None }).map_err(|m| format!("{what}: {m}"))
+            };
+            judge("the tree as written down", &mut [&mut t], &model, kept)?;
+            let item = (a < n).then(|| t.remove_at(a));
+            if let Some(it) = &item {
+                let e = model.remove(a);
+                if it.id != e || !it.intact() || it.size != 1 {
+                    return Err(format!("remove_at({a}) returned an item that reads id {}, check {:#x}, size {}; the vector holds element #{e} (check {:#x}, size 1)", it.id, it.check, it.size, dr_check(e)));
+                }
+                kept = Some(e);
+            }
+            judge("after remove_at, the returned item kept", &mut [&mut t], &model, kept)?;
+            let at = a.min(model.len());
+            DROPS.with(|d| d.borrow_mut().as_mut().unwrap().counts.push(0));
+            t.insert_at(at, Dr::new(n as u32));
+            model.insert(at, n as u32);
+            judge("after insert_at", &mut [&mut t], &model, kept)?;
+            let cut = b.min(model.len());
+            let (l, mut r) = t.split_at(cut);
+            drop(l);
+            model.drain(..cut);
+            judge("after split_at and the drop of the left part", &mut [&mut r], &model, kept)?;
+            if let Some(it) = item {
+                if !it.intact() {
+                    return Err(format!("the item remove_at({a}) returned reads check {:#x} by now", it.check));
+                }
+                drop(it);
+                kept = None;
+            }
+            judge("after the drop of the returned item", &mut [&mut r], &model, kept)?;
+            if r.first().map(|x| x.id) != model.first().copied() || r.last().map(|x| x.id) != model.last().copied() {
+                return Err("first() / last() of the right part disagree with the vector".into());
+            }
+            judge("after first and last", &mut [&mut r], &model, kept)?;
+            drop(r);
+            judge("at the end, everything dropped", &mut [], &[], None)
+        })
+    }
+
     fn run_inner(&self, stats: &mut ShapeStats) -> Result<(), String> {
         let ShapeCase { fam, shape, n, tags, prio, a, b, other } = self.clone();
+        if fam == "drops" {
+            stats.cases += 1;
+            stats.per_family[SHAPE_FAMILIES.iter().position(|f| *f == fam).unwrap()] += 1;
+            return self.run_drops(stats);
+        }
         let Built { tree: mut t, mut model, height, deepest_tag } = build_shape(shape, n, tags, 0);
         let deepest = height.saturating_sub(1) as u32;
         set_priorities(&mut t, &|d| prio.of(d, deepest));
@@ -1366,7 +1877,17 @@ impl ShapePlan {
 
     /// The work of the sweep in enumeration order (sizes ascending, shapes in family order), cut into groups
     /// that can run in parallel; inside a group: tags, priorities, operations, positions ascending.
-    fn groups(&self) -> Vec<Vec<ShapeCase>> {
+    /// `drops`: the drop-accounting cases (they run before anything that uses heap-owning items), or all others.
+    fn groups(&self, drops: bool) -> Vec<Vec<ShapeCase>> {
+        let mut groups = self.all_groups();
+        for g in groups.iter_mut() {
+            g.retain(|c| (c.fam == "drops") == drops);
+        }
+        groups.retain(|g| !g.is_empty());
+        groups
+    }
+
+    fn all_groups(&self) -> Vec<Vec<ShapeCase>> {
         let mut groups = vec![];
         for &n in &self.sizes {
             let thin = n >= self.thin_from;
@@ -1393,6 +1914,16 @@ impl ShapePlan {
                         }
                         if a < n {
                             g.push(case("remove_at", Prio::Spread, a, 0));
+                        }
+                    }
+                    // drop accounting does not involve the tags: once per (shape, removed position a, cut b).
+                    // Priorities `low`: whatever insert_at draws lies above them, so the case does not
+                    // depend on the draw (the new node becomes a leaf at the end of the merge seam)
+                    if tags == Tags::None {
+                        for &a in &pos {
+                            for &b in &ends {
+                                g.push(case("drops", Prio::Low, a, b));
+                            }
                         }
                     }
                     for &a in &ends {
@@ -1464,13 +1995,7 @@ fn shape_sweep(groups: &[Vec<ShapeCase>]) -> (ShapeStats, Vec<(ShapeCase, String
     let mut total = ShapeStats::default();
     let mut first: Vec<(ShapeCase, String)> = vec![];
     for (stats, fails) in out.into_inner().unwrap().into_iter().map(|o| o.unwrap()) {
-        total.cases += stats.cases;
-        total.judged_trees += stats.judged_trees;
-        total.max_height = total.max_height.max(stats.max_height);
-        total.deepest_tag = total.deepest_tag.max(stats.deepest_tag);
-        for (a, b) in total.per_family.iter_mut().zip(stats.per_family) {
-            *a += b;
-        }
+        total.absorb(stats);
         for f in fails {
             if !first.iter().any(|g| g.0.fam == f.0.fam) {
                 first.push(f);
@@ -2527,11 +3052,15 @@ fn sys_for(mode: Mode, n: usize) -> Sys {
     Sys { max_nodes: n, max_slots: 3, mode, vals: 2, stale: Some(4), mods: AFFINE }
 }
 
+fn drop_sys_for(n: usize) -> DropSys {
+    DropSys { max_nodes: n, max_slots: 3 }
+}
+
 /// Plain re-execution of a history on a FRESH thread, after `predraws` node creations on that thread.  The
 /// states reached do not depend on the values drawn (see the comment on `Pred`) unless the code under test
 /// draws priorities of its own or compares them in an unusual way; for those cases a replay names the
 /// thread ordinal and the stream offset, and runs in a process of its own (`HistCase`).
-fn replay_fresh(mode: Mode, n: usize, hist: Vec<Value>, predraws: usize) -> Result<(), String> {
+fn replay_fresh(mode: Mode, n: usize, drops: bool, hist: Vec<Value>, predraws: usize) -> Result<(), String> {
     std::thread::spawn(move || {
         if predraws > 0 {
             // synchronising the model generator takes the thread's first two draws
@@ -2540,7 +3069,11 @@ fn replay_fresh(mode: Mode, n: usize, hist: Vec<Value>, predraws: usize) -> Resu
                 model_saw(real_draw());
             }
         }
-        replay_history(&sys_for(mode, n), &hist)
+        if drops {
+            replay_history(&drop_sys_for(n), &hist)
+        } else {
+            replay_history(&sys_for(mode, n), &hist)
+        }
     })
     .join()
     .unwrap_or_else(|_| Err("replay thread panicked".to_string()))
@@ -2552,6 +3085,8 @@ fn replay_fresh(mode: Mode, n: usize, hist: Vec<Value>, predraws: usize) -> Resu
 struct HistCase {
     mode: Mode,
     n: usize,
+    /// a history of the drop-accounting part (`DropSys`, actions `DAct`)
+    drops: bool,
     hist: Vec<Value>,
     thread: usize,
     predraws: usize,
@@ -2561,7 +3096,7 @@ const HIST_ENV: &str = "ENG_TREAP_HISTORY_CASE";
 
 impl HistCase {
     fn to_json(&self) -> Value {
-        json!({"kind": "history", "mode": if self.mode == Mode::C03 { "C03" } else { "C16" }, "n": self.n, "history": self.hist, "thread": self.thread, "predraws": self.predraws})
+        json!({"kind": "history", "mode": if self.mode == Mode::C03 { "C03" } else { "C16" }, "n": self.n, "part": if self.drops { "drop_accounting" } else { "sequence" }, "history": self.hist, "thread": self.thread, "predraws": self.predraws})
     }
 
     fn from_json(v: &Value, mode: Mode) -> Result<HistCase, String> {
@@ -2571,7 +3106,7 @@ impl HistCase {
             _ => mode,
         };
         match (v["n"].as_u64(), v["history"].as_array()) {
-            (Some(n), Some(h)) => Ok(HistCase { mode, n: n as usize, hist: h.clone(), thread: v["thread"].as_u64().unwrap_or(0) as usize, predraws: v["predraws"].as_u64().unwrap_or(0) as usize }),
+            (Some(n), Some(h)) => Ok(HistCase { mode, n: n as usize, drops: v["part"].as_str() == Some("drop_accounting"), hist: h.clone(), thread: v["thread"].as_u64().unwrap_or(0) as usize, predraws: v["predraws"].as_u64().unwrap_or(0) as usize }),
             _ => Err("n / history missing".into()),
         }
     }
@@ -2581,7 +3116,7 @@ impl HistCase {
         for _ in 0..self.thread {
             let _ = std::thread::spawn(|| { let _ = real_draw(); }).join();
         }
-        replay_fresh(self.mode, self.n, self.hist.clone(), self.predraws)
+        replay_fresh(self.mode, self.n, self.drops, self.hist.clone(), self.predraws)
     }
 
     /// Ok(result of the replay) or Err(machinery problem)
@@ -2606,6 +3141,27 @@ impl HistCase {
     }
 }
 
+/// A violation the exploration found becomes a report once a fresh thread of a fresh process reproduces it.
+/// A defect that draws priorities of its own makes the outcome depend on where the thread's generator
+/// stands: the first (thread ordinal, stream offset) at which the history fails again is recorded with it.
+fn report_history(run: &mut Run, mode: Mode, n: usize, drops: bool, f: &Found) {
+    let sig = format!("{}:N={}:{}", if drops { "drops" } else { "explore" }, n, serde_json::to_string(&f.history).unwrap());
+    for thread in 0..4usize {
+        for predraws in [0usize, 2, 3, 4, 5, 6, 7, 8] {
+            let case = HistCase { mode, n, drops, hist: f.history.clone(), thread, predraws };
+            match case.run_in_child() {
+                Ok(Err(m)) => {
+                    let part = if drops { "drop accounting, " } else { "" };
+                    return run.violation(Violation::new(sig, format!("[{part}N={n}] {m}"), case.to_json()));
+                }
+                Ok(Ok(())) => {}
+                Err(m) => run.machinery_failure(&m),
+            }
+        }
+    }
+    run.machinery_failure(&format!("the exploration reported [N={n}] {} for {sig}, but 32 replays on fresh threads of fresh processes (thread ordinals 0..4, stream offsets 0..8) all pass", f.message))
+}
+
 fn hist_child_main(case: &str, mode: Mode) -> ! {
     let case = match serde_json::from_str::<Value>(case).map_err(|e| e.to_string()).and_then(|v| HistCase::from_json(&v, mode)) {
         Ok(c) => c,
@@ -2620,6 +3176,65 @@ fn hist_child_main(case: &str, mode: Mode) -> ! {
     };
     println!("CASE-RESULT {r}");
     std::process::exit(0)
+}
+
+// ---------------------------------------------------------------------------------------------
+// C03 (d): one short history of the Vec-owning item under Miri (side crate `miri/` of this engine)
+
+enum Miri {
+    /// the "Undefined Behavior" line and the step of the history it was reported in
+    Ub(String, String),
+    /// ran to the end: the lines the history printed
+    Clean(Vec<String>),
+    /// no verdict of either kind (Miri not installed, the crate does something Miri does not interpret, …)
+    NotCompleted(String),
+}
+
+fn miri_pass() -> Miri {
+    let dir = concat!(env!("CARGO_MANIFEST_DIR"), "/miri");
+    // next to the engine's own target directory, with a lock of its own
+    let target = std::env::current_exe().ok().and_then(|e| Some(e.parent()?.parent()?.join("treap-miri")));
+    let mut cmd = std::process::Command::new("cargo");
+    cmd.current_dir(dir).env("MIRIFLAGS", "-Zmiri-ignore-leaks").args(["+nightly", "miri", "run", "--offline", "-q"]);
+    if let Some(t) = target {
+        cmd.env("CARGO_TARGET_DIR", t);
+    }
+    let o = match cmd.output() {
+        Ok(o) => o,
+        Err(e) => return Miri::NotCompleted(format!("cannot start cargo: {e}")),
+    };
+    let (out, err) = (String::from_utf8_lossy(&o.stdout), String::from_utf8_lossy(&o.stderr));
+    let lines: Vec<String> = out.lines().map(str::to_string).collect();
+    if let Some(l) = err.lines().find(|l| l.contains("Undefined Behavior")) {
+        let step = lines.iter().rev().find_map(|l| l.strip_prefix("STEP ")).unwrap_or("(before the first step)");
+        return Miri::Ub(l.trim().trim_start_matches("error: ").to_string(), step.to_string());
+    }
+    if o.status.success() && lines.last().map(String::as_str) == Some("HISTORY-DONE") {
+        return Miri::Clean(lines);
+    }
+    let tail: Vec<&str> = err.lines().filter(|l| !l.trim().is_empty()).collect();
+    Miri::NotCompleted(format!("cargo miri run ended with {:?} and neither an Undefined Behavior line nor the end of the history: {}", o.status.code(), tail[tail.len().saturating_sub(6)..].join(" | ")))
+}
+
+/// allocation ids, addresses and offsets out of a Miri message (the signature must be stable); the widths
+/// of integer types stay
+fn without_numbers(line: &str) -> String {
+    let mut out = String::new();
+    let mut chars = line.chars().peekable();
+    while let Some(c) = chars.next() {
+        if !c.is_ascii_digit() {
+            out.push(c);
+            continue;
+        }
+        let mut run = String::from(c);
+        while let Some(d) = chars.next_if(|d| d.is_ascii_alphanumeric()) {
+            run.push(d);
+        }
+        let mut before = out.chars().rev();
+        let type_width = matches!(before.next(), Some('u' | 'i' | 'f')) && !before.next().map_or(false, |b| b.is_ascii_alphanumeric());
+        out.push_str(if type_width { &run } else { "#" });
+    }
+    out
 }
 
 /// direct checks on the public constructors that the exploration does not call
@@ -2679,6 +3294,15 @@ fn main() {
                 r.map(|_| ()).map_err(|f| f.msg)
             }
             "constructors" => check_constructors(),
+            "miri" => match miri_pass() {
+                Miri::Ub(l, step) => Err(format!("{l}; reported in the step: {step}")),
+                Miri::Clean(_) => Ok(()),
+                Miri::NotCompleted(m) => {
+                    // never a verdict
+                    println!("MACHINERY-FAILURE property=C03 engine=treap Miri pass: {m}");
+                    std::process::exit(2)
+                }
+            },
             "shape" => {
                 let case = ShapeCase::from_json(v).map_err(|e| format!("replay file: {e}"))?;
                 on_new_thread("the thread of a directed shape case", SHAPE_STACK_MB, move || case.run(&mut ShapeStats::default())).and_then(|r| r)
@@ -2723,6 +3347,79 @@ fn main() {
     let mut outcomes = 0u64;
     let mut table = vec![];
     let mut exhaustive = true;
+    let mut drop_shape_stats = ShapeStats::default();
+    if mode == Mode::C03 && !child {
+        // Before anything in this process touches the crate with items that own heap memory: the same item on
+        // one short history under Miri.  A use after free or a double free is a verdict there, not a crash.
+        match miri_pass() {
+            Miri::Ub(l, step) => {
+                run.violation(Violation::new(format!("miri:{}:step={step}", without_numbers(&l)), format!("[Miri, one short history of the Vec-owning item] {l}; reported in the step: {step}"), json!({"kind": "miri"})));
+                run.cov("miri_pass", json!({"undefined_behaviour": l, "step": step}));
+            }
+            Miri::Clean(lines) => run.cov("miri_pass", json!({"undefined_behaviour": null, "history": lines})),
+            // an auxiliary pass: without it the run says so and goes on (a crash of this process is then
+            // reported by the driver as a machinery failure, never as a verdict)
+            Miri::NotCompleted(m) => run.cov("miri_pass", json!({"not_completed": m})),
+        }
+    }
+    if mode == Mode::C03 {
+        // Drop accounting comes first: its elements are plain integers, so a double drop is a verdict.  With
+        // the Vec-owning items of everything below it would be undefined behaviour in this very process.
+        let plan: &[(usize, Option<usize>)] = if child {
+            &[(4, None)]
+        } else if quick {
+            &[(2, None), (3, None), (4, None), (5, None), (6, None)]
+        } else {
+            &[(2, None), (3, None), (4, None), (5, None), (6, None), (7, None)]
+        };
+        for &(n, depth) in plan {
+            let cfg = ExploreCfg { max_depth: depth, max_states: 25_000_000, wall_cap_s: if quick { 40.0 } else { 1200.0 } };
+            let t0 = std::time::Instant::now();
+            let r = explore(&drop_sys_for(n), &cfg);
+            states += r.states;
+            transitions += r.transitions;
+            outcomes += r.distinct_outcomes;
+            exhaustive &= r.closed || depth.is_some();
+            let mut result = r.to_json();
+            result["violation_found"] = json!(r.violation.is_some());
+            table.push(json!({"part": "drop accounting", "max_nodes": n, "max_items_held": MAX_HELD, "depth_bound": depth, "wall_s": (t0.elapsed().as_secs_f64() * 100.0).round() / 100.0, "result": result}));
+            if let Some(f) = &r.violation {
+                report_history(&mut run, mode, n, true, f);
+                break;
+            }
+            if n == plan.last().unwrap().0 {
+                for h in r.sample_histories.iter().take(1) {
+                    run.sample(json!({"part": "drop accounting", "max_nodes": n, "history": h}));
+                }
+            }
+        }
+        // the same accounting on the tall and large literal trees of the directed shape sweep
+        if !table.iter().any(|p| p["result"]["violation_found"] == json!(true)) {
+            let (stats, fails) = shape_sweep(&ShapePlan::of(quick, child).groups(true));
+            for (case, m) in fails {
+                run.violation(Violation::new(case.signature(), format!("[directed shapes] {}: {m}", case.describe()), case.to_json()));
+            }
+            drop_shape_stats = stats;
+        }
+        let seen = DROP_DESTRUCTORS_SEEN.load(Ordering::Relaxed);
+        run.cov("drop_accounting_destructor_runs_recorded", seen);
+        run.cov("drop_accounting_insert_at_draws", DROP_INSERT_DRAWS.load(Ordering::Relaxed));
+        if !run.has_violations() && seen < 1000 {
+            run.machinery_failure(&format!("drop accounting implausible: only {seen} destructor runs were recorded"));
+        }
+    }
+    if run.has_violations() {
+        // undefined behaviour under Miri, an element destroyed twice or used after its destruction: the parts
+        // below, whose items own heap memory, might not survive it (and a crash is not a verdict)
+        run.cov("states", states);
+        run.cov("transitions", transitions);
+        run.cov("traces_validated_against_impl", transitions);
+        run.cov("distinct_outcomes", outcomes);
+        run.cov("parts", Value::Array(table));
+        run.cov("exhaustive", false);
+        run.cov("stopped_early", "the Miri pass or drop accounting found a violation: the parts that use heap-owning items in this process (the sequence exploration, the directed shape sweep, the second-profile pass) were not run");
+        run.finish(&confirm)
+    }
     for (n, depth, dirty, mods) in plan {
         let mut sys = sys_for(mode, n);
         sys.mods = mods;
@@ -2739,28 +3436,7 @@ fn main() {
         }
         table.push(json!({"max_nodes": n, "depth_bound": depth, "nodes_with_stale_tags": dirty, "modifications": mods.iter().map(|&m| MOD_NAMES[m as usize]).collect::<Vec<_>>(), "wall_s": (t0.elapsed().as_secs_f64() * 100.0).round() / 100.0, "result": r.to_json()}));
         if let Some(f) = &r.violation {
-            let sig = format!("explore:N={}:{}", n, serde_json::to_string(&f.history).unwrap());
-            // a defect that draws priorities of its own makes the outcome depend on where the thread's
-            // generator stands: look for the first (thread ordinal, stream offset) at which a fresh thread
-            // of a fresh process reproduces it
-            let mut found = None;
-            'grid: for thread in 0..4usize {
-                for predraws in [0usize, 2, 3, 4, 5, 6, 7, 8] {
-                    let case = HistCase { mode, n, hist: f.history.clone(), thread, predraws };
-                    match case.run_in_child() {
-                        Ok(Err(m)) => {
-                            found = Some((case, m));
-                            break 'grid;
-                        }
-                        Ok(Ok(())) => {}
-                        Err(m) => run.machinery_failure(&m),
-                    }
-                }
-            }
-            match found {
-                Some((case, m)) => run.violation(Violation::new(sig, format!("[N={n}] {m}"), case.to_json())),
-                None => run.machinery_failure(&format!("the exploration reported [N={n}] {} for {sig}, but 32 replays on fresh threads of fresh processes (thread ordinals 0..4, stream offsets 0..8) all pass", f.message)),
-            }
+            report_history(&mut run, mode, n, false, f);
             break;
         }
         for h in r.sample_histories.iter().take(1) {
@@ -2773,12 +3449,13 @@ fn main() {
         }
         // directed: tall and large shapes
         let plan = ShapePlan::of(quick, child);
-        let groups = plan.groups();
+        let groups = plan.groups(false);
         let t0 = std::time::Instant::now();
-        let (stats, fails) = shape_sweep(&groups);
+        let (mut stats, fails) = shape_sweep(&groups);
         for (case, m) in fails {
             run.violation(Violation::new(case.signature(), format!("[directed shapes] {}: {m}", case.describe()), case.to_json()));
         }
+        stats.absorb(drop_shape_stats);
         let tallest = plan.sizes.iter().copied().max().unwrap_or(0);
         if !run.has_violations() && (stats.max_height < tallest || stats.deepest_tag * 2 < tallest || stats.per_family.iter().any(|&c| c == 0)) {
             run.machinery_failure(&format!("directed shape sweep implausible: tallest tree {} levels, deepest pending modification at depth {}, cases per family {:?}", stats.max_height, stats.deepest_tag, stats.per_family));
@@ -2816,6 +3493,15 @@ fn main() {
     run.cov("insert_at_calls_repeated", REDRAWS.load(Ordering::Relaxed));
     run.cov("insert_at_draws_uncontrolled", UNCONTROLLED_DRAWS.load(Ordering::Relaxed));
     run.cov("rule", "BFS over states of up to 3 live treaps with at most N nodes (values in {0,1}; lazy tags over Z3: add 1 / assign 0, and in the parts that say so the POSITION-DEPENDENT modification 'add 1 + i to the i-th element of the subtree it is attached to' next to assign 0 — its push hands the left child the progression as it is and the right child the progression advanced by left_size + 1, so a child handed over in the wrong slot, in push or in update, changes values), every action in every reached state: New at every priority rank (strictly between or tied with live levels), Merge of every ordered pair, split_at / split_by at every position, insert_at at every position and priority rank (strictly between levels: live priorities are re-spaced to the two ends of the u32 range so that any draw lands at the chosen rank; tied with a level: that level is moved onto the draw predicted by a per-thread copy of the crate's generator), remove_at, Apply of each modification at the root, first/last/collect/size/root, merge with an empty treap; parts without depth_bound run to closure; state identity = pre-order (priority rank, value, size, left size, tag, aggregate) per treap, treaps sorted");
+    if mode == Mode::C03 {
+        run.cov(
+            "drop_accounting_rule",
+            format!(
+                "OWNERSHIP of the elements (a vector owns its elements: remove hands one over alive, everything else is destroyed exactly once): parts 'drop accounting' run the same BFS (New at every priority rank, Merge, split_at / split_by at every position, insert_at at every position and every rank strictly between live levels, first/last/collect, merge with an empty treap; up to 3 treaps, at most N elements alive) with an element made of plain integers (id, a check word that is a function of the id, subtree size) whose destructor adds 1 to its id's entry of a table that belongs to the history, and with the actions that move ownership: remove_at with the returned item kept by the caller (at most {MAX_HELD} kept), remove_at with the returned item dropped on the spot, the caller drops a kept item, the caller drops a whole treap. After EVERY action: every element in a live treap or in the caller's hands has been destroyed 0 times, every element that has left exactly once, no destructor ran on anything that is not a live element; the item remove_at returns reads back (id, check word, size 1) when returned and in every later state; and in every state the history may end — on a copy of the state every treap and every kept item is dropped, after which every element the history created has been destroyed exactly once (no leak, no double drop). State identity = pre-order (priority rank, cached size) per treap, treaps sorted, number of kept items; ids and table are left out because in a state that passed the checks they are determined up to a renaming of the elements (table: alive 0, gone 1); a replay re-executes the state's own history with a table of its own. Destructors the harness causes itself (copies for branching, the copies judged by collect) are not recorded.                  The directed shape sweep runs the same accounting as its family 'drops' on the literal trees (every shape and size of the sweep, no tags): remove_at(a) with the item kept, insert_at(a), split_at(b), the left part dropped, the kept item dropped, first/last, the right part dropped — table and sequence judged after each of them, a over the sweep's positions, b in {{0, 1, n/3, n/2, n-1, n}}. Both run BEFORE anything that uses heap-owning items, and a violation there ends the run (with such items a double drop is undefined behaviour in the engine's own process).                  MIRI: before all of it, ONE execution (not an enumeration) of a 12-step history of the Vec-owning item of the sequence exploration — insert_at, modifications, split_at, merge, remove_at with the item kept and read, remove_at with the item discarded, first/last/size/collect, split_by with a part dropped, from_item, insert_at of a clone, drops — under `cargo +nightly miri run` (side crate miri/ of the engine): an 'Undefined Behavior' line is a violation; if Miri cannot run the history, `miri_pass.not_completed` says why and nothing is concluded from it."
+            ),
+        );
+        run.assume("drop accounting: the element type has no heap-owning field, so that destroying it twice is observable (its table entry reads 2) without being undefined behaviour that ends the process; what is judged is the number of destructor runs per element and the fields of returned items, which is what ownership of the elements means for any item type with drop glue");
+    }
     run.assume("the harness item (value, size, left size, word aggregate, pending tag x_i -> a*x_i + b + d*i with i counted from the first element of the node's own subtree) is a lawful TreapItem: the crate changes a node's children only after push() (which empties the tag) and calls update() afterwards, so a pending tag always refers to the subtree it was attached to; a node without children does not record a pending tag (nothing can read it)");
 
     if mode == Mode::C16 {
